@@ -60,7 +60,11 @@ Proof.
   apply andb_prop in H as [_ Hord]. rewrite forallb_forall in Hord. specialize (Hord (k, a) Hin). cbn [snd] in Hord. unfold order_ok in Hord.
   destruct (aget (S "order") a) as [[| |z| | | | |]|] eqn:Eo; try discriminate.
   apply andb_prop in Hord as [H0 H4]. apply Z.leb_le in H0. apply Z.leb_le in H4.
-  unfold eo, ea, esym_of, order_of, edge_get, edge_attrs. rewrite Hf, Hg, Eo. now rewrite sym_ord_osym by lia.
+  assert (E : oord (esym_of g p k) = order_of g p k).
+  { unfold esym_of. destruct (arom_of g p && arom_of g k && (order_of g p k =? 1)) eqn:Ec.
+    - apply andb_prop in Ec as [_ Ec]. apply Z.eqb_eq in Ec. now rewrite Ec.
+    - apply sym_ord_osym. unfold order_of, edge_get, edge_attrs. rewrite Hf, Hg, Eo. lia. }
+  rewrite E. unfold eo, ea, order_of, edge_get, edge_attrs. now rewrite Hf, Hg, Eo.
 Qed.
 Lemma has_edge_eo g u v : plain_graph g = true -> has_edge g u v = true -> eo g u v <> None.
 Proof.
